@@ -62,12 +62,12 @@ type RunCtx struct {
 	Workers int
 	Start   time.Time
 
-	mu    sync.Mutex
-	viols []*explore.Violation
-	Cov   map[string]interface{}
-	Level string
-	Assume []string
-	Notes []string
+	mu             sync.Mutex
+	viols          []*explore.Violation
+	Cov            map[string]interface{}
+	Level          string
+	Assume         []string
+	Notes          []string
 	MachineryError bool
 }
 
